@@ -539,7 +539,7 @@ int api_op(const char *name, int lineno)
     }
     if (!strcmp(name, "dealloc_trace") || !strcmp(name, "remove_trace")) {
         int sid = (int)IA[0] % MAXSES;
-        srtp_err_status_t st = (srtp_err_status_t)-2;
+        long long st = -2;           /* no such session (an enum-typed -2 would print as fffffffe) */
         nhev = 0;
         if (ses[sid]) {
             hev_on = 1;
